@@ -1,7 +1,7 @@
 """Trace normalisation for the bounded-queue driver (shared by C01 / C02 / C16 / C17 ...)."""
 import re
 
-DEF = {"t": 0, "k": "", "loc": "", "i": 0, "v": 0, "a": 0, "b": 0, "ok": True, "mo": "", "op": "", "n": 0, "vals": [], "res": 0}
+DEF = {"t": 0, "k": "", "loc": "", "i": 0, "v": 0, "a": 0, "b": 0, "ok": True, "mo": "", "mof": "", "op": "", "n": 0, "vals": [], "res": 0}
 SCHED = {"spawn", "start", "exit", "join", "tick", "timed", "crash"}
 
 
@@ -67,6 +67,7 @@ def normalise(events):
             n["v"], n["a"] = e["v"], e["a"]
         elif k == "cas":
             n["v"], n["a"], n["b"], n["ok"] = e["v"], e["a"], e["b"], e["ok"]
+            n["mof"] = e.get("mof", "")
         elif k == "fwait":
             n["a"], n["v"], n["ok"] = e["exp"], e["cur"], e["res"] == "block"
         elif k == "fret":
@@ -136,7 +137,7 @@ def hb_lines(events, acc_of=None):
     """vsched trace of one execution -> lines for the generic HBMon.tla.
     acc_of(e) -> list of (cell, index, is_write) for driver payload events"""
     out = []
-    D = {"t": 0, "k": "", "loc": "", "i": 0, "mo": "", "ok": True}
+    D = {"t": 0, "k": "", "loc": "", "i": 0, "mo": "", "mof": "", "ok": True}
     for e in events:
         k = e.get("k")
         t = max(0, e.get("t", 0))
@@ -145,7 +146,7 @@ def hb_lines(events, acc_of=None):
         elif k in ("load", "store", "xchg", "faa", "fand", "for", "fxor"):
             out.append(dict(D, t=t, k=k, loc=e["loc"], i=e.get("i", 0), mo=e["mo"]))
         elif k == "cas":
-            out.append(dict(D, t=t, k=k, loc=e["loc"], i=e.get("i", 0), mo=e["mo"], ok=e["ok"]))
+            out.append(dict(D, t=t, k=k, loc=e["loc"], i=e.get("i", 0), mo=e["mo"], mof=e.get("mof", e["mo"]), ok=e["ok"]))
         elif k == "fence":
             out.append(dict(D, t=t, k=k, mo=e["mo"]))
         elif k in ("lock", "unlock"):
